@@ -3,6 +3,7 @@
    harness -> driver
      P <cps>            set the pyspace oracle: the code points c with c.strip() == ""
      R <cps>            read_many with fill_pos = At     (cps: code points separated by ',', may be empty)
+     B <cps>            read_many_file: the same with skip_shebang=True
      F <fuel> <cps>     rd with that fuel in mode (MSeq None []) (for fuel-bound experiments)
    driver -> harness, while working on an R line, whenever an oracle value is not cached:
      Q N <cps>          is this identifier text a number for as_identifier?    answer: 0 | 1
@@ -108,6 +109,7 @@ let () =
         match line.[0] with
         | 'P' -> Hashtbl.reset pyspace_tab; List.iter (fun c -> Hashtbl.replace pyspace_tab (int_of_n c) ()) (cps arg)
         | 'R' -> outcome (read_many orc (cps arg))
+        | 'B' -> outcome (read_many_file orc (cps arg))
         | 'F' ->
           (match String.index_opt arg ' ' with
            | Some i ->
